@@ -128,9 +128,6 @@ pub fn bigram_model(regime: Regime, max_ids: usize) -> BoxedStrategy<BigramModel
                 let mut costs: Vec<(String, String, i32)> = vec![];
                 let mut seen = std::collections::HashSet::new();
                 let mut push = |r: String, l: String, c: i32| {
-                    if r.is_empty() && l.is_empty() {
-                        return; // ''/'' line: open known finding (accessor-only), excluded
-                    }
                     if seen.insert((r.clone(), l.clone())) {
                         costs.push((r, l, c));
                     }
@@ -150,7 +147,12 @@ pub fn bigram_model(regime: Regime, max_ids: usize) -> BoxedStrategy<BigramModel
                     let mut l = lvoc[pick(*b, lvoc.len())].clone();
                     if *special {
                         match c.rem_euclid(5) {
-                            0 => r = String::new(),          // BOS line: ''/x
+                            0 => {
+                                r = String::new(); // BOS line: ''/x
+                                if c.rem_euclid(35) == 0 {
+                                    l = String::new(); // the ''/'' line (BOS/EOS with itself)
+                                }
+                            }
                             1 => l = String::new(),          // EOS line: x/''
                             2 => r = "never-in-rows".into(), // feature that never occurs in rows
                             3 => {
